@@ -170,7 +170,10 @@ TRead == /\ IsEvent("Read")
                  [] Ev.rc = 0 ->
                       \* orderly close: everything written before the close_notify has been delivered; or the stream just ended
                       /\ \/ (IF isC THEN cfin ELSE sfin) /\ rpos[d] = wpos[d]
-                         \/ (IF isC THEN m2c = <<>> /\ s2m = <<>> /\ (seof \/ closed) ELSE m2s = <<>> /\ c2m = <<>> /\ (ceof \/ closed))
+                         \* (what is still on its way to the reader may only be records that were damaged in flight: a record whose length field was
+                         \*  raised beyond the rest of the stream never completes, and the reader sees the end of the stream inside it)
+                         \/ (IF isC THEN (\A j \in 1..Len(m2c) : ~m2c[j].ok) /\ s2m = <<>> /\ (seof \/ closed)
+                                     ELSE (\A j \in 1..Len(m2s) : ~m2s[j].ok) /\ c2m = <<>> /\ (ceof \/ closed))
                       /\ UNCHANGED <<rpos, cav, sav>>
                  [] OTHER ->
                       \* a failing read: the reader has discarded an unacceptable record, or the run is not honest
